@@ -13,7 +13,7 @@ SHORTCPU = {1: "0x11", 2: "0x70", 4: "0x76"}
 OBLIGATIONS = []
 for g in (1, 2, 4):
     for m in range(9):
-        quick = (g, m) in ((1, 0), (2, 1), (4, 7))
+        quick = (g, m) in ((2, 1), (4, 7))
         OBLIGATIONS.append(ob("image_g%d_%s" % (g, MODES[m].lower()), ["CF_R=2", "CF_L=4", "STRINGSIZE=16", "GRAN=%d" % g, "MODE=%d" % m, "SHORTCPU=%s" % SHORTCPU[g]],
                               "2 records x <= 4 bytes (long and short form), granularity %d, -m %s, any start < 2^31, window <= 2048 units, -S -4..4, -e, -f list <= 2, -segment, auto/explicit range, (offset) <= 0x1000" % (g, MODES[m]),
                               timeout=1500, tier="quick" if quick else "thorough"))
